@@ -197,7 +197,8 @@ fn peg_case(l: &mut Local, rng: &mut Rng) {
     let c = PegConfig {
         nrows: if large { rng.range(12, 40) } else { rng.range(1, 12) },
         ncols: if large { rng.range(30, 120) } else { rng.range(1, 30) },
-        wc: rng.range(1, 5),
+        // weight 0 (no edge at all) is a valid request
+        wc: if rng.chance(0.04) { 0 } else { rng.range(1, 5) },
     };
     let seed = rng.next_u64() >> rng.below(60);
     let cj = || J::obj().set("nrows", c.nrows).set("ncols", c.ncols).set("wc", c.wc).set("seed", seed);
@@ -283,7 +284,24 @@ fn peg_case(l: &mut Local, rng: &mut Rng) {
 
 fn search_case(l: &mut Local, rng: &mut Rng, threads: usize, reps: usize) {
     // configurations where some seeds fail and some succeed
-    let c = match rng.below(3) {
+    let c = match rng.below(4) {
+        // marginal configurations: a seed only succeeds by spending girth retries (or backtracks), and a fair share
+        // of the seeds fails, so a search that lets one seed's spent budget leak into the next one returns nothing
+        3 => {
+            let nrows = rng.range(12, 20);
+            let bt = rng.chance(0.3);
+            MnConfig {
+                nrows,
+                ncols: nrows * 3 / 2,
+                wr: 5,
+                wc: 3,
+                backtrack_cols: if bt { rng.range(1, 3) } else { 0 },
+                backtrack_trials: if bt { rng.range(1, 4) } else { 0 },
+                min_girth: Some(6),
+                girth_trials: rng.range(15, 60),
+                fill_policy: FillPolicy::Uniform,
+            }
+        }
         0 => MnConfig {
             nrows: 6,
             ncols: 12,
@@ -315,6 +333,7 @@ fn search_case(l: &mut Local, rng: &mut Rng, threads: usize, reps: usize) {
     };
     let start = rng.next_u64() >> 16;
     let tries = rng.range(1, 48) as u64;
+    l.count(&format!("search_config_class_{}", if c.nrows >= 12 { "marginal" } else { "small" }));
     // sequential oracle: which seeds of the range succeed, and with what matrix
     let seq: Vec<Option<SparseMatrix>> = (start..start + tries).map(|s| c.run(s).ok()).collect();
     let ok_seeds: Vec<u64> = (0..tries).filter(|&i| seq[i as usize].is_some()).map(|i| start + i).collect();
@@ -365,7 +384,7 @@ fn search_case(l: &mut Local, rng: &mut Rng, threads: usize, reps: usize) {
 }
 
 pub fn run(run: &mut Run) {
-    run.rule = "MacKay-Neal: rows 2..12, cols 2..30, wc 1..4, wr from tight to generous, backtracking 0..4 x 0..5, min girth None or 4..12 (odd values included), girth trials 0..50, both policies, random seeds; on Ok: size, every column weight = wc (from the row view AND the column view), row weights <= wr, own-oracle girth >= min_girth, uniform/no-girth => row weights differ by <= 1; run(seed) twice equal; 64 seeds of a large-choice configuration give >= 2 distinct matrices. PEG: rows 1..12, cols 1..30 (2 % of the cases up to 40 x 120), wc 1..5: column weight = min(wc, rows) and REPLAY of every edge in insertion order against an own BFS on the graph at that time (unreachable, else maximal distance; least degree among those). Search: result compared with a sequential re-run of the whole seed range (tries <= 48) inside rayon pools of 1/2/4/16 threads, repeated; non-trivial = MN result changed by the girth constraint or succeeding only thanks to backtracking / PEG with wc >= 2 / search range with >= 2 successful seeds".into();
+    run.rule = "MacKay-Neal: rows 2..12, cols 2..30, wc 1..4, wr from tight to generous, backtracking 0..4 x 0..5, min girth None or 4..12 (odd values included), girth trials 0..50, both policies, random seeds; on Ok: size, every column weight = wc (from the row view AND the column view), row weights <= wr, own-oracle girth >= min_girth, uniform/no-girth => row weights differ by <= 1; run(seed) twice equal; 64 seeds of a large-choice configuration give >= 2 distinct matrices. PEG: rows 1..12, cols 1..30 (2 % of the cases up to 40 x 120), wc 1..5 and 0: column weight = min(wc, rows) and REPLAY of every edge in insertion order against an own BFS on the graph at that time (unreachable, else maximal distance; least degree among those). Search (small configurations and marginal 12..20-row girth-6 configurations whose successful seeds spend retries): result compared with a sequential re-run of the whole seed range (tries <= 48) inside rayon pools of 1/2/4/16 threads, repeated; non-trivial = MN result changed by the girth constraint or succeeding only thanks to backtracking / PEG with wc >= 2 / search range with >= 2 successful seeds".into();
     run.assumptions = vec!["PEG insertion order within a column is read from the column iterator (push order)".into()];
     let miri = cfg!(miri);
     let n_mn = if miri { 6 } else { run.tier.n(500_000, 15_000_000) };
@@ -375,7 +394,7 @@ pub fn run(run: &mut Run) {
     let n_peg = if miri { 4 } else { run.tier.n(100_000, 3_000_000) };
     run.sub("peg-replay", n_peg, |l, _i, rng| peg_case(l, rng));
     // the search uses its own thread pools: run these cases sequentially
-    let n_s = if miri { 1 } else { run.tier.n(60, 1200) };
+    let n_s = if miri { 1 } else { run.tier.n(400, 6000) };
     let reps = if miri { 1 } else { run.tier.n(10, 20) as usize };
     run.sub_seq("seed-search", n_s, move |l, idx, rng| {
         let threads = if cfg!(miri) { 2 } else { [1usize, 2, 4, 16][(idx % 4) as usize] };
